@@ -240,6 +240,60 @@ def nameOfSpec (flows : List String) (ctx : Ctx) (s : ElemSpec) : Except Err Str
       | some n => .ok n
       | none => .error .noName
 
+/-! ### the dispatcher's side: the name of `get_event_from_element` -/
+
+/-- `Action.get_event(member, args)` as far as the NAME goes when the member arguments are `args` (evaluated):
+    the only member whose name depends on them is `Change` (`change_event` reads `args["arguments"]`) -/
+def actionEventNameD (changeArgs : Bool) (a m : String) : Except Err String :=
+  if m = "Change" ∧ changeArgs = true then .ok ("Change" ++ a) else actionEventName a m
+
+/-- the three cases of the two name functions with the action-event name function as a parameter -/
+def nameOfSpecG (an : String → String → Except Err String) (flows : List String) (ctx : Ctx) (s : ElemSpec) : Except Err String :=
+  match s.varName with
+  | some v =>
+    match ctx.find? (·.1 = v) with
+    | none => .error .unknownVariable
+    | some (_, obj) =>
+      match walk obj ((s.members.getD []).dropLast) with
+      | .error e => .error e
+      | .ok o =>
+        match o.kind, s.members.bind List.getLast? with
+        | .event n, _ => if s.members.isSome then .error .eventsHaveNoAttrs else .ok n
+        | .action a, some m => an a m
+        | .flow, some m => flowEventName m
+        | _, _ => .error .unsupportedType
+  | none =>
+    match s.members with
+    | some ms =>
+      match s.specType with
+      | .flow =>
+        match s.name with
+        | none => .error .noName
+        | some f =>
+          if !flows.contains f then .error .unknownFlow
+          else match ms with
+            | [] => .error .noMembers
+            | m :: _ => namedFlowEventName m
+      | .action =>
+        match s.name with
+        | none => .error .noName
+        | some a =>
+          match ms with
+          | [] => .error .noMembers
+          | m :: _ => an a m
+      | _ => .error .unsupportedSpecType
+    | none =>
+      match s.name with
+      | some n => .ok n
+      | none => .error .noName
+
+/-- the NAME of `get_event_from_element(state, flow_state, element)` — the event the DISPATCHER compares an incoming event
+    with (`_compute_event_matching_score`) — when every argument expression evaluates: the same three cases, the same walk,
+    the same two `del`s, `Action.get_event` / `FlowState.get_event` with the evaluated member arguments;
+    `changeArgs` = the member arguments contain `arguments`. -/
+def dispatchNameOfSpec (changeArgs : Bool) (flows : List String) (ctx : Ctx) (s : ElemSpec) : Except Err String :=
+  nameOfSpecG (actionEventNameD changeArgs) flows ctx s
+
 /-- `_add_head_to_event_matching_structures` for a head on ANY match element -/
 def addHeadSpec (s : IState) (k : Key) (flows : List String) (ctx : Ctx) (spec : ElemSpec) : IState :=
   match nameOfSpec flows ctx spec with
